@@ -26,7 +26,7 @@ STUBS = ['S1', 'S5', 'S6', 'S7', 'S13']
 OUTSIDE = ['tracers that raise', 'attempts beyond the bound']
 ASSUMPTIONS = []
 BUDGET = {'quick': 50.0, 'thorough': 200.0}
-TERMINALS = (('ok', 'errresp'), ('unlisted_exc', 'undecodable'), ('nonresponse', 'mismatch'), ('kbd', 'cancelled'))
+TERMINALS = (('ok', 'errresp'), ('unlisted_exc', 'undecodable'), ('nonresponse', 'mismatch'), ('kbd', 'cancelled'), ('errresp_null', 'ok'))
 
 
 def setup():
@@ -44,9 +44,13 @@ def obligations(tier):
             continue
         if ntr == 0 and ctx == 'default':
             continue
+        if term[0] == 'errresp_null' and req != 'single':
+            continue            # a null-id element inside a batch array is an identity mismatch (covered by 'mismatch')
         obs.append({'h': 'trace', 'kind': kind, 'ntr': ntr, 'req': req, 'ctx': ctx, 'term': list(term), 'nmax': nmax,
                     'retry': True, '_weight': 10})
     for kind, req, term in it.product(('sync', 'async'), ('single', 'batch', 'notif'), TERMINALS):
+        if term[0] == 'errresp_null' and req != 'single':
+            continue
         obs.append({'h': 'trace', 'kind': kind, 'ntr': 2, 'req': req, 'ctx': 'default', 'term': list(term), 'nmax': 0,
                     'retry': False, '_weight': 2})
     for kind, req, ntr in it.product(('sync', 'async'), ('single', 'batch', 'notif'), (1, 2)):
@@ -142,8 +146,8 @@ def h_trace(ob):
             if kind == 'mismatch':
                 rid = env.int(f'rid{k}')
                 env.assume(rid != 1)
-            if kind in ('code', 'errresp'):
-                body = {'jsonrpc': '2.0', 'id': rid, 'error': {'code': 2000 if kind == 'code' else 2001, 'message': 'm'}}
+            if kind in ('code', 'errresp', 'errresp_null'):
+                body = {'jsonrpc': '2.0', 'id': None if kind == 'errresp_null' else rid, 'error': {'code': 2000 if kind == 'code' else 2001, 'message': 'm'}}
                 if is_batch and kind == 'code':
                     body['id'] = None      # batch-level error
                     return body
